@@ -76,6 +76,18 @@ def gen(tier, rng):
                         if tier == "quick" and status not in (200, 400) and i % 3:
                             continue
                         out.append((http_line(variants[i % 2], kind, ext, status, ct, body), label))
+    # tiny bodies: every one-byte body and short prefixes of things a decoder may sniff for (byte-order marks,
+    # brackets, quotes, literals): an outcome, never a panic, for success and error statuses alike
+    tiny = [bytes([b]) for b in range(256)]
+    tiny += [b"\xef\xbb", b"\xef\xbb\xbf", b"\xef\xbb\xbf{}", b"\xfe\xff", b"\xff\xfe", b"\xff\xfe\x00\x00", b"\x00\x00\xfe\xff", b"{}", b"[]", b'""', b'{"', b"tr", b"nul", b"-", b"0", b"1e",
+             b"\xc3", b"\xe2\x82", b"\xf0\x9f\x98", b"\r\n", b"  ", b"\x00\x00", b"{\x00}", b'{"error"', b'{"error":', b'{"error":"', b'{"error":"x"', b'{"error":"x"}']
+    for kind in KINDS:
+        for bi, body in enumerate(tiny):
+            for status in (200, 400, 500):
+                i += 1
+                if tier == "quick" and bi < 256 and (bi + status // 100 + len(kind)) % 3 and body not in (b"\xef", b"\xfe", b"\xff", b"{", b"[", b'"', b"\x00"):
+                    continue
+                out.append((http_line(variants[i % 2], kind, False, status, CTS[i % 2], body), "tiny-body"))
     # long Content-Type values (every length 1..200 around typical truncation points), ASCII, two-byte and
     # three-byte characters and opaque bytes, JSON and non-JSON media types: an error value, never a panic
     for kind in KINDS:
